@@ -225,7 +225,8 @@ ODD_TEXTS = ["caf\udce9", "\ufeffab", "a\ufeffb", "x\ud83d\ude00y", "\ud800", "a
 # environment variables that libraries commonly consult at import time or at run time (colour conventions, terminal type, locale)
 ENVIRONMENTS = [{"NO_COLOR": "1"}, {"NO_COLOR": ""}, {"TERM": "dumb"}, {"TERM": "rxvt"}, {"TERM": "rxvt-unicode-256color"}, {"TERM": "linux"},
                 {"TERM": "screen-256color"}, {"TERM": ""}, {"CLICOLOR": "0"}, {"CLICOLOR_FORCE": "1", "FORCE_COLOR": "1"}, {"COLORTERM": "truecolor"},
-                {"LC_ALL": "C", "LANG": "C"}, {"PYTHONOPTIMIZE": "1"}, {"COLUMNS": "1", "LINES": "1"}]
+                {"LC_ALL": "C", "LANG": "C"}, {"PYTHONOPTIMIZE": "1"}, {"COLUMNS": "1", "LINES": "1"},
+                {"LANG": "ja_JP.UTF-8"}, {"LC_ALL": "zh_CN.UTF-8"}, {"LC_CTYPE": "ko_KR.UTF-8", "LANG": "en_US.UTF-8"}, {"LANG": "tr_TR.UTF-8"}]
 
 
 def run_in_environment(module, function, extra_env, timeout=300):
